@@ -125,7 +125,10 @@ def enc_value(v, legacy=False):
             raise RefError('decimal out of range')
         return b'D' + struct.pack('>Bi', scale, raw)
     if isinstance(v, float):
-        return b'f' + struct.pack('>f', v)
+        try:
+            return b'f' + struct.pack('>f', v)
+        except OverflowError:       # finite, beyond single precision
+            return b'd' + struct.pack('>d', v)
     if isinstance(v, str):
         return b'S' + enc_longstr(v)
     if isinstance(v, (datetime.datetime, time.struct_time)):
@@ -234,7 +237,13 @@ def enc_protocol_header(major, minor, revision):
 # normalisation of a Python field value to what a round trip must return
 
 def single(x):
-    return struct.unpack('>f', struct.pack('>f', x))[0]
+    """What a float becomes on the wire: rounded to single precision; a
+    finite value beyond the single-precision range keeps its double value
+    (tag d)."""
+    try:
+        return struct.unpack('>f', struct.pack('>f', x))[0]
+    except OverflowError:
+        return float(x)
 
 
 def normalise(v):
